@@ -106,7 +106,7 @@ fn gen(rng: &mut Rng, n: usize) -> Vec<Case> {
     neg::boundary(&mut out);
     fetch::boundary(&mut out);
     // real fetches are expensive (several process spawns each): a bounded share
-    let n_fetch = (n / 12).min(600);
+    let n_fetch = (n / 12).min(400);
     let mut fetch_left = n_fetch.saturating_sub(out.iter().filter(|c| c[0] == b"fetch").count());
     while out.len() < n {
         let remaining = n - out.len();
